@@ -15,8 +15,8 @@ theorem matchesOf_idx (env : Env) (c : Ctx) (l : LEnv) (s : SRef) (h : SRefOk c 
     obtain ⟨⟨n, hn⟩, _⟩ := h
     simp [Env.matchesOf, srefIdx, hn]
 
-theorem runs_pushStr (env : Env) (code : List Instr) (c : Ctx) (l : LEnv) (s : SRef) (h : SRefOk c l s) :
-    Runs env code [pushStr c s] c l [encStr (srefIdx l s)] := by
+theorem runs_pushStr (env : Env) (code : List Instr) (c : Ctx) (l : LEnv) (pure : Bool) (s : SRef) (h : SRefOk c l s) :
+    Runs env code [pushStr c s] c l pure [encStr (srefIdx l s)] := by
   cases s with
   | id n => exact Runs.push1 _ _ (fun _ _ _ _ _ => rfl)
   | cur =>
@@ -73,8 +73,8 @@ theorem step_matches (env : Env) (re a : Int) (pc : Nat) (st mem : List Int) (it
 
 /-! ### boolean position, short-circuit `and` / `or` -/
 
-theorem runs_boolpos {env : Env} {code : List Instr} {c : Ctx} {l : LEnv} (f : List Instr) (t : Ty) (w : Int)
-    (ih : Runs env code f c l [w]) : Runs env code (f ++ strToBool t) c l [boolWord env.blocks t w] := by
+theorem runs_boolpos {env : Env} {code : List Instr} {c : Ctx} {l : LEnv} {pure : Bool} (f : List Instr) (t : Ty) (w : Int)
+    (ih : Runs env code f c l pure [w]) : Runs env code (f ++ strToBool t) c l pure [boolWord env.blocks t w] := by
   by_cases ht : t = .str
   · subst ht
     simp only [strToBool, boolWord, beq_self_eq_true, if_true]
@@ -86,19 +86,19 @@ theorem runs_boolpos {env : Env} {code : List Instr} {c : Ctx} {l : LEnv} (f : L
 theorem len4 (A B : List Instr) (j o : Instr) : (A ++ [j] ++ B ++ [o]).length = A.length + 1 + B.length + 1 := by
   simp only [List.length_append, List.length_cons, List.length_nil]
 
-theorem runs_and {env : Env} {code A B : List Instr} {c : Ctx} {l : LEnv} {wa wb : Int}
-    (ha : Runs env code A c l [wa]) (hb : Runs env code B c l [wb]) :
-    Runs env code (A ++ [.jfalse ((B.length : Int) + 2)] ++ B ++ [.bin .OP_AND]) c l
+theorem runs_and {env : Env} {code A B : List Instr} {c : Ctx} {l : LEnv} {pure : Bool} {wa wb : Int}
+    (ha : Runs env code A c l pure [wa]) (hb : Runs env code B c l pure [wb]) :
+    Runs env code (A ++ [.jfalse ((B.length : Int) + 2)] ++ B ++ [.bin .OP_AND]) c l pure
       [b2i ((!isU wa && wa != 0) && (!isU wb && wb != 0))] := by
   intro pc st mem its hc hP hlen
-  obtain ⟨m1, e1, s1, a1⟩ := ha pc st mem its hc.left.left.left hP hlen
+  obtain ⟨m1, e1, s1, a1, p1⟩ := ha pc st mem its hc.left.left.left hP hlen
   have hj : code[pc + A.length]? = some (.jfalse ((B.length : Int) + 2)) := hc.left.left.right.head
   rw [len4]
   by_cases hk : (!isU wa && wa == 0) = true
   · -- jump taken: the left operand (0) is the result
     have hw : wa = 0 := by simp at hk; exact hk.2
     have hu : isU (0 : Int) = false := by decide
-    refine ⟨m1, e1, Steps.trans s1 (Steps.one (by simpa using hj) ?_), a1⟩
+    refine ⟨m1, e1, Steps.trans s1 (Steps.one (by simpa using hj) ?_), a1, p1⟩
     subst hw
     simp only [step, List.singleton_append, hu, jump]
     simp only [Bool.not_false, bne_self_eq_false, Bool.and_false, Bool.false_and, b2i, beq_self_eq_true,
@@ -112,7 +112,7 @@ theorem runs_and {env : Env} {code A B : List Instr} {c : Ctx} {l : LEnv} {wa wb
     have hcb : CodeAt code (pc + A.length + 1) B := by
       have := hc.left.right
       simpa [Nat.add_assoc] using this
-    obtain ⟨m3, e3, s3, a3⟩ := hb (pc + A.length + 1) ([wa] ++ st) m1 (its ++ e1) hcb (hP.stable a1) (a1.2.trans hlen)
+    obtain ⟨m3, e3, s3, a3, p3⟩ := hb (pc + A.length + 1) ([wa] ++ st) m1 (its ++ e1) hcb (hP.stable a1) (a1.2.trans hlen)
     have ho : code[pc + A.length + 1 + B.length]? = some (.bin .OP_AND) := by
       have := hc.right.head
       have e : pc + (A ++ [Instr.jfalse ((B.length : Int) + 2)] ++ B).length = pc + A.length + 1 + B.length := by
@@ -124,21 +124,25 @@ theorem runs_and {env : Env} {code A B : List Instr} {c : Ctx} {l : LEnv} {wa wb
       simp only [step, List.singleton_append, vm_and]
       congr 2
       omega
-    exact ⟨m3, e1 ++ e3, by simpa [List.append_assoc] using Steps.trans s1 (Steps.trans s2 (Steps.trans s3 s4)), a3.trans a1⟩
+    refine ⟨m3, e1 ++ e3, by simpa [List.append_assoc] using Steps.trans s1 (Steps.trans s2 (Steps.trans s3 s4)), a3.trans a1, ?_⟩
+    intro hp
+    obtain ⟨rfl, rfl⟩ := p1 hp
+    obtain ⟨rfl, rfl⟩ := p3 hp
+    exact ⟨rfl, rfl⟩
 
-theorem runs_or {env : Env} {code A B : List Instr} {c : Ctx} {l : LEnv} {wa wb : Int}
-    (ha : Runs env code A c l [wa]) (hb : Runs env code B c l [wb])
+theorem runs_or {env : Env} {code A B : List Instr} {c : Ctx} {l : LEnv} {pure : Bool} {wa wb : Int}
+    (ha : Runs env code A c l pure [wa]) (hb : Runs env code B c l pure [wb])
     (h1 : (!isU wa && wa != 0) = true → wa = 1) :
-    Runs env code (A ++ [.jtrue ((B.length : Int) + 2)] ++ B ++ [.bin .OP_OR]) c l
+    Runs env code (A ++ [.jtrue ((B.length : Int) + 2)] ++ B ++ [.bin .OP_OR]) c l pure
       [b2i ((!isU wa && wa != 0) || (!isU wb && wb != 0))] := by
   intro pc st mem its hc hP hlen
-  obtain ⟨m1, e1, s1, a1⟩ := ha pc st mem its hc.left.left.left hP hlen
+  obtain ⟨m1, e1, s1, a1, p1⟩ := ha pc st mem its hc.left.left.left hP hlen
   have hj : code[pc + A.length]? = some (.jtrue ((B.length : Int) + 2)) := hc.left.left.right.head
   rw [len4]
   by_cases hk : (!isU wa && wa != 0) = true
   · have hw : wa = 1 := h1 hk
     have hu : isU (1 : Int) = false := by decide
-    refine ⟨m1, e1, Steps.trans s1 (Steps.one (by simpa using hj) ?_), a1⟩
+    refine ⟨m1, e1, Steps.trans s1 (Steps.one (by simpa using hj) ?_), a1, p1⟩
     subst hw
     simp only [step, List.singleton_append, hu, jump]
     simp only [Bool.not_false, b2i, Bool.true_and, Bool.true_or, if_true, bne_iff_ne, ne_eq, Int.reduceEq,
@@ -152,7 +156,7 @@ theorem runs_or {env : Env} {code A B : List Instr} {c : Ctx} {l : LEnv} {wa wb 
     have hcb : CodeAt code (pc + A.length + 1) B := by
       have := hc.left.right
       simpa [Nat.add_assoc] using this
-    obtain ⟨m3, e3, s3, a3⟩ := hb (pc + A.length + 1) ([wa] ++ st) m1 (its ++ e1) hcb (hP.stable a1) (a1.2.trans hlen)
+    obtain ⟨m3, e3, s3, a3, p3⟩ := hb (pc + A.length + 1) ([wa] ++ st) m1 (its ++ e1) hcb (hP.stable a1) (a1.2.trans hlen)
     have ho : code[pc + A.length + 1 + B.length]? = some (.bin .OP_OR) := by
       have := hc.right.head
       have e : pc + (A ++ [Instr.jtrue ((B.length : Int) + 2)] ++ B).length = pc + A.length + 1 + B.length := by
@@ -164,7 +168,11 @@ theorem runs_or {env : Env} {code A B : List Instr} {c : Ctx} {l : LEnv} {wa wb 
       simp only [step, List.singleton_append, vm_or]
       congr 2
       omega
-    exact ⟨m3, e1 ++ e3, by simpa [List.append_assoc] using Steps.trans s1 (Steps.trans s2 (Steps.trans s3 s4)), a3.trans a1⟩
+    refine ⟨m3, e1 ++ e3, by simpa [List.append_assoc] using Steps.trans s1 (Steps.trans s2 (Steps.trans s3 s4)), a3.trans a1, ?_⟩
+    intro hp
+    obtain ⟨rfl, rfl⟩ := p1 hp
+    obtain ⟨rfl, rfl⟩ := p3 hp
+    exact ⟨rfl, rfl⟩
 
 theorem boolWord_one (blocks : List (Nat × Bytes)) (t : Ty) (v : Val) (h : ValOk t v) (hb : BoolWord v)
     (hk : (!isU (boolWord blocks t (toVm v)) && boolWord blocks t (toVm v) != 0) = true) :
@@ -198,13 +206,13 @@ theorem popToMarker_spec (ys acc rest : List Int) (h : ∀ y ∈ ys, isU y = fal
     simp
 
 /-- a sequence of instructions each of which pushes a fixed word -/
-theorem runs_pushes {env : Env} {code : List Instr} {c : Ctx} {l : LEnv} (ps : List (Instr × Int))
+theorem runs_pushes {env : Env} {code : List Instr} {c : Ctx} {l : LEnv} {pure : Bool} (ps : List (Instr × Int))
     (h : ∀ p ∈ ps, ∀ pc st mem its, step env p.1 ⟨pc, st, mem, its⟩ = some ⟨pc + 1, p.2 :: st, mem, its⟩) :
-    Runs env code (ps.map (·.1)) c l (ps.map (·.2)).reverse := by
+    Runs env code (ps.map (·.1)) c l pure (ps.map (·.2)).reverse := by
   induction ps with
-  | nil => exact Runs.nil env code c l
+  | nil => exact Runs.nil env code c l pure
   | cons p ps ih =>
-    have h1 : Runs env code [p.1] c l [p.2] := Runs.push1 _ _ (fun pc st mem its _ => h p (by simp) pc st mem its)
+    have h1 : Runs env code [p.1] c l pure [p.2] := Runs.push1 _ _ (fun pc st mem its _ => h p (by simp) pc st mem its)
     have h2 := ih (fun q hq => h q (by simp [hq]))
     have := Runs.seq h1 h2
     simpa using this
@@ -250,8 +258,8 @@ theorem w_of (q : QKind) (vq : Val) (t n : Nat) (htn : t ≤ n)
       · have hb : (k == 0) = false := by simp [h0]
         simp [ofResult, isU, isUndef_of_ne hk, quantOf, quantHolds, toVm, hb, h0]
 
-theorem runs_quant {env : Env} {code : List Instr} {c : Ctx} {l : LEnv} (q : QKind) (f : List Instr) (w : Int)
-    (ihq : q = .num → Runs env code f c l [w]) : Runs env code (quantCode f q) c l [quantWord q w] := by
+theorem runs_quant {env : Env} {code : List Instr} {c : Ctx} {l : LEnv} {pure : Bool} (q : QKind) (f : List Instr) (w : Int)
+    (ihq : q = .num → Runs env code f c l pure [w]) : Runs env code (quantCode f q) c l pure [quantWord q w] := by
   cases q with
   | all => exact Runs.push1 _ _ (fun _ _ _ _ _ => rfl)
   | any => exact Runs.push1 _ _ (fun _ _ _ _ _ => rfl)
@@ -291,15 +299,15 @@ theorem step_ofFoundAt (env : Env) (items : List Int) (hi : ∀ y ∈ items, isU
   simp only [step, hst, hp]
   split <;> rfl
 
-theorem runs_strset {env : Env} {code : List Instr} {c : Ctx} {l : LEnv} (set : List Nat) :
-    Runs env code (set.map fun n => Instr.push (encStr n)) c l (set.map encStr).reverse := by
-  have := runs_pushes (env := env) (code := code) (c := c) (l := l) (set.map fun n => (Instr.push (encStr n), encStr n))
+theorem runs_strset {env : Env} {code : List Instr} {c : Ctx} {l : LEnv} {pure : Bool} (set : List Nat) :
+    Runs env code (set.map fun n => Instr.push (encStr n)) c l pure (set.map encStr).reverse := by
+  have := runs_pushes (env := env) (code := code) (c := c) (l := l) (pure := pure) (set.map fun n => (Instr.push (encStr n), encStr n))
     (by intro p hp pc st mem its; simp only [List.mem_map] at hp; obtain ⟨n, _, rfl⟩ := hp; rfl)
   simpa [List.map_map, Function.comp_def] using this
 
-theorem runs_ruleset {env : Env} {code : List Instr} {c : Ctx} {l : LEnv} (set : List Nat) :
-    Runs env code (set.map fun k => Instr.pushRule k) c l (set.map fun k => b2i (env.rules.getD k false)).reverse := by
-  have := runs_pushes (env := env) (code := code) (c := c) (l := l)
+theorem runs_ruleset {env : Env} {code : List Instr} {c : Ctx} {l : LEnv} {pure : Bool} (set : List Nat) :
+    Runs env code (set.map fun k => Instr.pushRule k) c l pure (set.map fun k => b2i (env.rules.getD k false)).reverse := by
+  have := runs_pushes (env := env) (code := code) (c := c) (l := l) (pure := pure)
     (set.map fun k => (Instr.pushRule k, b2i (env.rules.getD k false)))
     (by intro p hp pc st mem its; simp only [List.mem_map] at hp; obtain ⟨n, _, rfl⟩ := hp; rfl)
   simpa [List.map_map, Function.comp_def] using this
@@ -322,7 +330,7 @@ theorem count_ruleset (env : Env) (set : List Nat) :
 
 theorem exec_loopfree (env : Env) (henv : EnvOk env) (code : List Instr) :
     ∀ (e : Expr) (c : Ctx) (l : LEnv), loopFree e = true → WF env c l e →
-      Runs env code (compile c e) c l [toVm (eval env l e)]
+      Runs env code (compile c e) c l true [toVm (eval env l e)]
   | .int v, c, l, _, hw => by
     have hv : isUndef v = false := isUndef_of_ne (by simpa [WF] using hw)
     simp only [compile, hv, eval, toVm]
@@ -391,12 +399,12 @@ theorem exec_loopfree (env : Env) (henv : EnvOk env) (code : List Instr) :
     exact Runs.val1 (vm_read env.blocks henv k _ ht hw.2.2.2) (Runs.op (.un (readOp k)) _ _ ih (fun _ _ _ _ => rfl))
   | .count s, c, l, _, hw => by
     simp only [WF] at hw
-    have hp := runs_pushStr env code c l s hw
+    have hp := runs_pushStr env code c l true s hw
     simp only [compile, eval, toVm, matchesOf_idx env c l s hw]
     exact Runs.op .count _ _ hp (step_count env _)
   | .found s, c, l, _, hw => by
     simp only [WF] at hw
-    have hp := runs_pushStr env code c l s hw
+    have hp := runs_pushStr env code c l true s hw
     simp only [compile, eval, toVm, matchesOf_idx env c l s hw]
     exact Runs.op .found _ _ hp (step_found env _)
   | .countIn s lo hi, c, l, hl, hw => by
@@ -409,7 +417,7 @@ theorem exec_loopfree (env : Env) (henv : EnvOk env) (code : List Instr) :
     have hhi := wf_typed env c l hi hwhi
     rw [htlo] at hlo
     rw [hthi] at hhi
-    have hp := runs_pushStr env code c l s hs
+    have hp := runs_pushStr env code c l true s hs
     have hcode : compile c (.countIn s lo hi) = ((compile c lo ++ compile c hi) ++ [pushStr c s]) ++ [.countIn] := by
       simp [compile]
     rw [hcode]
@@ -425,7 +433,7 @@ theorem exec_loopfree (env : Env) (henv : EnvOk env) (code : List Instr) :
     have hhi := wf_typed env c l hi hwhi
     rw [htlo] at hlo
     rw [hthi] at hhi
-    have hp := runs_pushStr env code c l s hs
+    have hp := runs_pushStr env code c l true s hs
     have hcode : compile c (.foundIn s lo hi) = ((compile c lo ++ compile c hi) ++ [pushStr c s]) ++ [.foundIn] := by
       simp [compile]
     rw [hcode]
@@ -437,7 +445,7 @@ theorem exec_loopfree (env : Env) (henv : EnvOk env) (code : List Instr) :
     have ih := exec_loopfree env henv code pos c l (by simpa [loopFree] using hl) hwp
     have hx := wf_typed env c l pos hwp
     rw [htp] at hx
-    have hp := runs_pushStr env code c l s hs
+    have hp := runs_pushStr env code c l true s hs
     have hcode : compile c (.foundAt s pos) = (compile c pos ++ [pushStr c s]) ++ [.foundAt] := by simp [compile]
     rw [hcode]
     simp only [eval, matchesOf_idx env c l s hs]
@@ -448,7 +456,7 @@ theorem exec_loopfree (env : Env) (henv : EnvOk env) (code : List Instr) :
     have ih := exec_loopfree env henv code i c l (by simpa [loopFree] using hl) hwp
     have hx := wf_typed env c l i hwp
     rw [htp] at hx
-    have hp := runs_pushStr env code c l s hs
+    have hp := runs_pushStr env code c l true s hs
     have hcode : compile c (.offset s i) = (compile c i ++ [pushStr c s]) ++ [.offset] := by simp [compile]
     rw [hcode]
     simp only [eval, matchesOf_idx env c l s hs]
@@ -459,7 +467,7 @@ theorem exec_loopfree (env : Env) (henv : EnvOk env) (code : List Instr) :
     have ih := exec_loopfree env henv code i c l (by simpa [loopFree] using hl) hwp
     have hx := wf_typed env c l i hwp
     rw [htp] at hx
-    have hp := runs_pushStr env code c l s hs
+    have hp := runs_pushStr env code c l true s hs
     have hcode : compile c (.length s i) = (compile c i ++ [pushStr c s]) ++ [.length] := by simp [compile]
     rw [hcode]
     simp only [eval, matchesOf_idx env c l s hs]
@@ -510,7 +518,7 @@ theorem exec_loopfree (env : Env) (henv : EnvOk env) (code : List Instr) :
     have hcode : compile c (.matches a re nc) = (compile c a ++ [.push (encRe re nc)]) ++ [.matches] := by simp [compile]
     rw [hcode]
     simp only [eval]
-    have hp : Runs env code [Instr.push (encRe re nc)] c l [encRe re nc] := Runs.push1 _ _ (fun _ _ _ _ _ => rfl)
+    have hp : Runs env code [Instr.push (encRe re nc)] c l true [encRe re nc] := Runs.push1 _ _ (fun _ _ _ _ _ => rfl)
     exact Runs.val1 (w_matches re nc _ hta) (Runs.op .matches _ _ (Runs.seq iha hp) (step_matches env _ _))
   | .not e, c, l, hl, hw => by
     simp only [WF] at hw
@@ -552,10 +560,10 @@ theorem exec_loopfree (env : Env) (henv : EnvOk env) (code : List Instr) :
     exact runs_or (runs_boolpos _ _ _ iha) (runs_boolpos _ _ _ ihb) (boolWord_one env.blocks _ _ hta hbw)
   | .ofStr q qe set, c, l, hl, hw => by
     simp only [WF] at hw
-    have hq := runs_quant (env := env) (code := code) (c := c) (l := l) q (compile c qe) (toVm (eval env l qe))
+    have hq := runs_quant (env := env) (code := code) (c := c) (l := l) (pure := true) q (compile c qe) (toVm (eval env l qe))
       (fun h => exec_loopfree env henv code qe c l (by simpa [loopFree] using hl) (hw h).1)
-    have hm : Runs env code [Instr.pushU] c l [UNDEF] := Runs.push1 _ _ (fun _ _ _ _ _ => rfl)
-    have hs := runs_strset (env := env) (code := code) (c := c) (l := l) set
+    have hm : Runs env code [Instr.pushU] c l true [UNDEF] := Runs.push1 _ _ (fun _ _ _ _ _ => rfl)
+    have hs := runs_strset (env := env) (code := code) (c := c) (l := l) (pure := true) set
     have hcode : compile c (.ofStr q qe set) =
         ((quantCode (compile c qe) q ++ [Instr.pushU]) ++ set.map fun n => Instr.push (encStr n)) ++ [.of_ false] := by
       simp [compile]
@@ -570,10 +578,10 @@ theorem exec_loopfree (env : Env) (henv : EnvOk env) (code : List Instr) :
     exact w_of q _ _ _ (List.countP_le_length) (fun h => ⟨by have := wf_typed env c l qe (hw h).1; rwa [(hw h).2.1] at this, (hw h).2.2⟩)
   | .ofRules q qe set, c, l, hl, hw => by
     simp only [WF] at hw
-    have hq := runs_quant (env := env) (code := code) (c := c) (l := l) q (compile c qe) (toVm (eval env l qe))
+    have hq := runs_quant (env := env) (code := code) (c := c) (l := l) (pure := true) q (compile c qe) (toVm (eval env l qe))
       (fun h => exec_loopfree env henv code qe c l (by simpa [loopFree] using hl) (hw h).1)
-    have hm : Runs env code [Instr.pushU] c l [UNDEF] := Runs.push1 _ _ (fun _ _ _ _ _ => rfl)
-    have hs := runs_ruleset (env := env) (code := code) (c := c) (l := l) set
+    have hm : Runs env code [Instr.pushU] c l true [UNDEF] := Runs.push1 _ _ (fun _ _ _ _ _ => rfl)
+    have hs := runs_ruleset (env := env) (code := code) (c := c) (l := l) (pure := true) set
     have hcode : compile c (.ofRules q qe set) =
         ((quantCode (compile c qe) q ++ [Instr.pushU]) ++ set.map fun k => Instr.pushRule k) ++ [.of_ true] := by
       simp [compile]
@@ -590,10 +598,10 @@ theorem exec_loopfree (env : Env) (henv : EnvOk env) (code : List Instr) :
     simp only [WF] at hw
     simp only [loopFree, Bool.and_eq_true] at hl
     obtain ⟨hwq, hwlo, hwhi, htlo, hthi⟩ := hw
-    have hq := runs_quant (env := env) (code := code) (c := c) (l := l) q (compile c qe) (toVm (eval env l qe))
+    have hq := runs_quant (env := env) (code := code) (c := c) (l := l) (pure := true) q (compile c qe) (toVm (eval env l qe))
       (fun h => exec_loopfree env henv code qe c l hl.1.1 (hwq h).1)
-    have hm : Runs env code [Instr.pushU] c l [UNDEF] := Runs.push1 _ _ (fun _ _ _ _ _ => rfl)
-    have hs := runs_strset (env := env) (code := code) (c := c) (l := l) set
+    have hm : Runs env code [Instr.pushU] c l true [UNDEF] := Runs.push1 _ _ (fun _ _ _ _ _ => rfl)
+    have hs := runs_strset (env := env) (code := code) (c := c) (l := l) (pure := true) set
     have ihlo := exec_loopfree env henv code lo c l hl.1.2 hwlo
     have ihhi := exec_loopfree env henv code hi c l hl.2 hwhi
     have hlo := wf_typed env c l lo hwlo
@@ -620,10 +628,10 @@ theorem exec_loopfree (env : Env) (henv : EnvOk env) (code : List Instr) :
     simp only [WF] at hw
     simp only [loopFree, Bool.and_eq_true] at hl
     obtain ⟨hwq, hwp, htp⟩ := hw
-    have hq := runs_quant (env := env) (code := code) (c := c) (l := l) q (compile c qe) (toVm (eval env l qe))
+    have hq := runs_quant (env := env) (code := code) (c := c) (l := l) (pure := true) q (compile c qe) (toVm (eval env l qe))
       (fun h => exec_loopfree env henv code qe c l hl.1 (hwq h).1)
-    have hm : Runs env code [Instr.pushU] c l [UNDEF] := Runs.push1 _ _ (fun _ _ _ _ _ => rfl)
-    have hs := runs_strset (env := env) (code := code) (c := c) (l := l) set
+    have hm : Runs env code [Instr.pushU] c l true [UNDEF] := Runs.push1 _ _ (fun _ _ _ _ _ => rfl)
+    have hs := runs_strset (env := env) (code := code) (c := c) (l := l) (pure := true) set
     have ihp := exec_loopfree env henv code pos c l hl.2 hwp
     have hp := wf_typed env c l pos hwp
     rw [htp] at hp
